@@ -36,7 +36,10 @@ def read(kind, mode, text):
             pre, post, sep = 'export type T0 = "', '";', '" | "'
         else:
             pre, post, sep = 'export const T0Schema = z.enum(["', '"]);', '", "'
+        empty = "export type T0 = ;" if mode == "plain" else "export const T0Schema = z.enum([]);"
         for l in lines:
+            if l.rstrip() == empty:          # every variant skipped (not TypeScript in plain mode: C01's subject)
+                return []
             if l.startswith(pre) and l.rstrip().endswith(post):
                 body = l.rstrip()[len(pre):-len(post)]
                 return body.split(sep)
